@@ -116,6 +116,12 @@ func verifyFunction(p *program, fn *ssa.Function, fc *funcContract, safetyOnly b
 				x.trusted["definition by result: "+fn.String()+" is a deterministic function of its arguments ("+e.text+")"] = true
 				continue
 			}
+			if strings.HasPrefix(e.tag, "assumed:") {
+				// `ensures [assumed:reason] e`: a stated assumption about the data the function is given (not provable from the
+				// code: e.g. "input structs have no unexported fields"). Assumed at call sites, never an obligation; listed.
+				x.trusted["assumed postcondition of "+fn.String()+" ("+strings.TrimPrefix(e.tag, "assumed:")+"): "+e.text] = true
+				continue
+			}
 			tag := fmt.Sprint(k)
 			if e.tag != "" {
 				tag = e.tag
@@ -289,6 +295,9 @@ func (x *vc) frameObligations(fr *frame, out *state, fc *funcContract, pos strin
 		if !ok || cur == x.heap0[k] {
 			continue
 		}
+		if strings.HasPrefix(k, "GVIS_") {
+			continue // ghost state of map iterations: not program memory
+		}
 		refs := allowed.arrays[k]
 		if len(refs) == 1 && refs[0] == "*" {
 			continue
@@ -299,7 +308,7 @@ func (x *vc) frameObligations(fr *frame, out *state, fc *funcContract, pos strin
 		for _, a := range refs {
 			excl = append(excl, not(eq(r, a)))
 		}
-		goal := fmt.Sprintf("(forall ((%s Int)) %s)", r, implies(and(append(excl, app("<", r, "nextRef!0"), app("<=", "0", r))...), eq(app("select", cur, r), app("select", x.heap0[k], r))))
+		goal := fmt.Sprintf("(forall ((%s Int)) %s)", r, implies(and(append(excl, app("<", r, "nextRef!0"), app("<", "0", r))...), eq(app("select", cur, r), app("select", x.heap0[k], r))))
 		x.oblige(out, "assigns", k, goal, pos, "frame: "+k+" unchanged outside the assigns clause", false)
 	}
 }
